@@ -51,6 +51,7 @@ class Scope(BaseScope):
         self.top = top
         self.locals = set()   # type: set[str]
         self.globals = set()  # type: set[str]
+        self.nonlocals = set()  # type: set[str]
 
     @property
     def filename(self):
@@ -76,7 +77,10 @@ class Flow(object):
         if name.name in self.scope.globals:
             self.scope.top.add_global(name)
         else:
-            self.scope.locals.add(name.name)
+            if name.name not in self.scope.nonlocals:
+                # a name under a nonlocal declaration rebinds the variable of
+                # an enclosing function: it does not hide it from this scope
+                self.scope.locals.add(name.name)
             insert_loc(self._names, name)
 
     @property
